@@ -117,6 +117,11 @@ func (l *ltBroadcast) addLtBlock(ltBlock *types.LightBlock, receiveFrom, publish
 	block := &types.Block{}
 	block.SetHeader(ltBlock.GetHeader())
 	txCount := ltBlock.GetHeader().GetTxCount()
+	// the sender's buildLtBlock lists one short hash per transaction; anything else is malformed, and the
+	// peer-chosen count must not size allocations unchecked
+	if txCount <= 0 || txCount != int64(len(ltBlock.GetSTxHashes())) {
+		return
+	}
 	block.Txs = make([]*types.Transaction, txCount)
 	//add miner tx
 	block.Txs[0] = ltBlock.MinerTx
